@@ -311,6 +311,33 @@ pub mod crypto {
         ExpectedServer(PeerId),
     }
 
+    thread_local! {
+        static BASE: std::cell::RefCell<Option<CertVerifier>> = const { std::cell::RefCell::new(None) };
+    }
+
+    /// Called by `EndpointConfigBuilder::build` with the verifier it has just made.
+    pub(crate) fn note_verifier(verifier: &CertVerifier) {
+        BASE.with(|b| *b.borrow_mut() = Some(verifier.clone()));
+    }
+
+    /// A verifier for `server_names`, made the way the endpoint builder makes it (so that
+    /// whatever else a verifier carries comes from there), with only the accepted names replaced.
+    /// The builder runs once per thread: verifiers handed out on one thread share whatever state
+    /// the builder gave them, as the verifiers of one endpoint do.
+    fn base_verifier(server_names: &[String]) -> CertVerifier {
+        if BASE.with(|b| b.borrow().is_none()) {
+            let _ = crate::config::EndpointConfig::builder()
+                .private_key([1; 32])
+                .server_name("verif")
+                .build();
+        }
+        let mut verifier = BASE
+            .with(|b| b.borrow().clone())
+            .expect("the endpoint builder makes a verifier");
+        verifier.server_names = server_names.to_vec();
+        verifier
+    }
+
     pub fn peer_id_from_certificate(cert: &CertificateDer) -> Result<PeerId, rustls::Error> {
         crate::crypto::peer_id_from_certificate(cert)
     }
@@ -321,10 +348,8 @@ pub mod crypto {
         intermediates: &[CertificateDer],
         now: UnixTime,
     ) -> Result<(), rustls::Error> {
-        CertVerifier {
-            server_names: server_names.to_vec(),
-        }
-        .verify_client_cert(end_entity, intermediates, now)
+        base_verifier(server_names)
+            .verify_client_cert(end_entity, intermediates, now)
         .map(|_| ())
     }
 
@@ -336,9 +361,7 @@ pub mod crypto {
         server_name: &ServerName,
         now: UnixTime,
     ) -> Result<(), rustls::Error> {
-        let base = CertVerifier {
-            server_names: server_names.to_vec(),
-        };
+        let base = base_verifier(server_names);
         match expected {
             None => base.verify_server_cert(end_entity, intermediates, server_name, &[], now),
             Some(peer_id) => ExpectedCertVerifier(base, peer_id).verify_server_cert(
@@ -358,9 +381,7 @@ pub mod crypto {
         cert: &CertificateDer,
         dss: &rustls::DigitallySignedStruct,
     ) -> Result<(), rustls::Error> {
-        let base = CertVerifier {
-            server_names: vec![],
-        };
+        let base = base_verifier(&[]);
         match which {
             Which::Client => ClientCertVerifier::verify_tls13_signature(&base, message, cert, dss),
             Which::Server => ServerCertVerifier::verify_tls13_signature(&base, message, cert, dss),
@@ -377,9 +398,7 @@ pub mod crypto {
         cert: &CertificateDer,
         dss: &rustls::DigitallySignedStruct,
     ) -> Result<(), rustls::Error> {
-        let base = CertVerifier {
-            server_names: vec![],
-        };
+        let base = base_verifier(&[]);
         match which {
             Which::Client => ClientCertVerifier::verify_tls12_signature(&base, message, cert, dss),
             Which::Server => ServerCertVerifier::verify_tls12_signature(&base, message, cert, dss),
@@ -391,9 +410,7 @@ pub mod crypto {
     }
 
     pub fn supported_verify_schemes(which: &Which) -> Vec<rustls::SignatureScheme> {
-        let base = CertVerifier {
-            server_names: vec![],
-        };
+        let base = base_verifier(&[]);
         match which {
             Which::Client => ClientCertVerifier::supported_verify_schemes(&base),
             Which::Server => ServerCertVerifier::supported_verify_schemes(&base),
@@ -404,9 +421,7 @@ pub mod crypto {
     }
 
     pub fn client_auth_mandatory() -> bool {
-        let base = CertVerifier {
-            server_names: vec![],
-        };
+        let base = base_verifier(&[]);
         base.offer_client_auth() && base.client_auth_mandatory()
     }
 }
